@@ -300,3 +300,12 @@ func schedDeadline(ctx *core.Ctx) time.Duration {
 	}
 	return 25 * time.Second
 }
+
+// dirtyFr: a non-zero receiver value; every operation must overwrite its receiver completely, so results
+// must not depend on what the receiver held before.
+func dirtyFr() fr.Element {
+	return fr.Element{0xfffffffffffffff1, 0xfffffffffffffff2, 0xfffffffffffffff3, 0x0ffffffffffffff4}
+}
+
+// dirtyEl: a valid, unrelated, non-normalised element used to pre-fill receivers.
+func dirtyEl() banderwagon.Element { return reprOf(conf().SRS[177], reprProjFlip) }
